@@ -316,6 +316,7 @@ class Universe:
         self.dh = z3.Function('dh', O, B)
         self.hasattr = z3.Function('hasattr', O, I, B)
         self.attr = z3.Function('attr', O, I, O)
+        self.pmod = z3.Function('pymod', I, I, I)
         self._preds = {}
         self._consts = {}
         self._const_objs = []
@@ -336,7 +337,9 @@ class Universe:
         if hit is not None:
             return hit[0]
         self.fresh_n += 1
-        idx = z3.Int(f'mod{self.fresh_n}')
+        # an application of an uninterpreted function, so that congruence identifies
+        # r % len(a) with r % len(b) whenever a == b; its meaning comes from the lemmas below
+        idx = self.pmod(a, m)
         self._mods[key] = (idx, a, m)
         L = self.lemmas
         L.append(z3.Implies(m > 0, z3.And(idx >= 0, idx < m)))
